@@ -129,7 +129,9 @@ func table() []mech {
 
 			return config.MechanismConfig{"jwks_endpoint": ep("/jwks"), "assertions": a, "cache_ttl": "0s"}
 		}, Overrides: []map[string]any{m(`{"assertions":{"audience":["other"]}}`), m(`{"assertions":{"scopes":["admin"]}}`), m(`{"assertions":{"scopes":["write"]}}`),
-			m(`{"assertions":{"allowed_algorithms":["PS256"]}}`), m(`{"cache_ttl":"5s"}`)}, Headers: bearer},
+			m(`{"assertions":{"allowed_algorithms":["PS256"]}}`), m(`{"cache_ttl":"5s"}`),
+			// (two overrides which read the same once quotes and the ends of elements are left out)
+			m(`{"assertions":{"scopes":["read","write"]}}`), m(`{"assertions":{"scopes":["read write"]}}`)}, Headers: bearer},
 		{Name: "jwt_metadata", Category: "authenticator", Type: "jwt", Proto: func() config.MechanismConfig {
 			return config.MechanismConfig{"metadata_endpoint": map[string]any{"url": remote.URL() + "/.well-known/openid-configuration", "http_cache": map[string]any{"enabled": false}},
 				"assertions": m(`{"audience":["api"]}`), "cache_ttl": "0s"}
@@ -179,15 +181,17 @@ func table() []mech {
 			return config.MechanismConfig{"endpoint": ep("/authz"), "payload": `{"s":"{{ .Subject.ID }}","v":"{{ .Values.a }}"}`, "values": m(`{"a":"proto-a","b":"proto-b"}`),
 				"expressions": []any{m(`{"expression":"Payload.level >= 1"}`)}, "forward_response_headers_to_upstream": []any{"X-Remote-Echo"}}
 		}, Overrides: []map[string]any{m(`{"payload":"other {{ .Values.b }}"}`), m(`{"values":{"a":"override-a"}}`), m(`{"values":{"c":"new"}}`),
-			m(`{"expressions":[{"expression":"Payload.level >= 5"}]}`), m(`{"forward_response_headers_to_upstream":["X-Other"]}`), m(`{"forward_response_headers_to_upstream":[]}`), m(`{"cache_ttl":"5s"}`),
+			m(`{"expressions":[{"expression":"Payload.level >= 5"}]}`), m(`{"forward_response_headers_to_upstream":["X-Other"]}`), m(`{"forward_response_headers_to_upstream":[]}`), m(`{"cache_ttl":"5s"}`), m(`{"expressions":[]}`),
 			m(`{"expressions":[{"expression":"Payload.level >= 5","message":"level too low"}]}`), m(`{"expressions":[{"expression":"Payload.level >= 1"},{"expression":"Payload.level >= 5"}]}`)}},
 		{Name: "generic_ctx", Category: "contextualizer", Type: "generic", Proto: func() config.MechanismConfig {
 			return config.MechanismConfig{"endpoint": ep("/ctx"), "payload": `{"s":"{{ .Subject.ID }}","v":"{{ .Values.a }}"}`, "values": m(`{"a":"proto-a"}`),
 				"forward_headers": []any{"X-Tenant"}, "cache_ttl": "0s"}
 		}, Overrides: []map[string]any{m(`{"payload":"other"}`), m(`{"values":{"a":"override-a"}}`), m(`{"values":{"z":"new"}}`), m(`{"forward_headers":["X-Other-Tenant"]}`), m(`{"forward_headers":[]}`),
-			m(`{"continue_pipeline_on_error":true}`)}, Headers: []vkit.HeaderKV{{Name: "X-Tenant", Value: "t1"}, {Name: "X-Other-Tenant", Value: "t2"}}},
+			m(`{"continue_pipeline_on_error":true}`),
+			m(`{"values":{"a":"x","b":"y"}}`), m(`{"values":{"a":"x b:y"}}`), m(`{"forward_headers":["X-Tenant","X-Other-Tenant"]}`), m(`{"forward_headers":["X-Tenant X-Other-Tenant"]}`)}, Headers: []vkit.HeaderKV{{Name: "X-Tenant", Value: "t1"}, {Name: "X-Other-Tenant", Value: "t2"}}},
 		{Name: "header", Category: "finalizer", Type: "header", Proto: func() config.MechanismConfig { return m(`{"headers":{"X-One":"1-{{ .Subject.ID }}","X-Two":"2"}}`) },
-			Overrides: []map[string]any{m(`{"headers":{"X-One":"changed"}}`), m(`{"headers":{"X-Three":"3"}}`)}},
+			Overrides: []map[string]any{m(`{"headers":{"X-One":"changed"}}`), m(`{"headers":{"X-Three":"3"}}`),
+				m(`{"headers":{"X-Role":"admin","X-Tenant":"acme"}}`), m(`{"headers":{"X-Role":"admin X-Tenant:acme"}}`)}},
 		{Name: "cookie", Category: "finalizer", Type: "cookie", Proto: func() config.MechanismConfig { return m(`{"cookies":{"c1":"1-{{ .Subject.ID }}","c2":"2"}}`) },
 			Overrides: []map[string]any{m(`{"cookies":{"c1":"changed"}}`), m(`{"cookies":{"c3":"3"}}`)}},
 		{Name: "jwt_fin", Category: "finalizer", Type: "jwt", Proto: func() config.MechanismConfig {
